@@ -3,29 +3,61 @@ from vp import Obl
 
 KIT = ["vp_nondet.c", "vp_mem.c"]
 
+SKIP_FUNCS = ["ldb_skiplist_insert", "ldb_skiplist_find_ge", "ldb_skipnode_set", "ldb_skipnode_set_nb",
+              "ldb_skipnode_next", "ldb_skipnode_next_nb", "ldb_skiplist_maxheight", "ldb_skiplist_init"]
+RD_NAMES = {0: "publication", 1: "reader-seek-next", 2: "reader-last-prev", 3: "reader-first-contains"}
+RD_FUNCS = {0: [], 1: ["ldb_skipiter_seek", "ldb_skipiter_next"], 2: ["ldb_skipiter_last", "ldb_skipiter_prev", "ldb_skiplist_find_lt", "ldb_skiplist_find_last"],
+            3: ["ldb_skipiter_first", "ldb_skiplist_contains"]}
+
 
 def skiplist_obls(prefix):
     out = []
-    tuples = [(0, 1, 0, "quick"), (1, 2, 0, "quick"), (2, 2, 0, "quick"), (2, 2, 1, "quick"), (3, 2, 0, "quick"),
-              (3, 2, 1, "thorough"), (3, 3, 0, "thorough"), (4, 2, 0, "thorough")]
-    for (n, h, mid, tier) in tuples:
-        defs = {"VP_N": n, "VP_HEIGHT": h}
+    # (heights of the inserts in order, reader group, mid-insert real reader, tier)
+    tuples = [("", 0, 0, "quick"), ("", 1, 0, "quick"), ("", 2, 0, "quick"), ("", 3, 0, "quick")]
+    for hs in ("1", "2", "3", "11", "12", "21", "22", "13", "31", "121", "212", "221"):
+        tuples.append((hs, 0, 0, "quick"))
+    for hs in ("23", "32", "33", "111", "112", "122", "211", "222", "123", "321", "313", "1212", "2121"):
+        tuples.append((hs, 0, 0, "thorough"))
+    for hs in ("2", "12", "21"):
+        for rd in (1, 2, 3):
+            tuples.append((hs, rd, 0, "quick"))
+    for hs in ("22", "212", "121"):
+        for rd in (1, 2, 3):
+            tuples.append((hs, rd, 0, "thorough"))
+    for hs in ("2", "12", "21", "22"):
+        tuples.append((hs, 0, 1, "quick"))
+    for hs in ("212", "121", "13", "31"):
+        tuples.append((hs, 0, 1, "thorough"))
+    for (hs, rd, mid, tier) in tuples:
+        n = len(hs)
+        h = max([int(c) for c in hs] + [1])
+        defs = {"VP_N": n, "VP_HEIGHT": h, "VP_RD": rd}
+        if n:
+            defs["VP_HS"] = int(hs)
         if mid:
             defs["VP_MIDREAD"] = 1
-        out.append(Obl("%s.skiplist-publication-N%d-H%d%s" % (prefix, n, h, "-midread" if mid else ""), "C10/skiplist.c",
+        what = RD_NAMES[rd] + ("-midread" if mid else "")
+        desc = ("real skiplist.c under the atomic-event hook: every store into a reader-reachable next[] slot is a release store of the "
+                "new node, made after x->key and x->next[0..i] were stored (x->next[i] == the successor the slot holds); max_height only "
+                "through the atomic macros, only grows; reference traversal at every atomic store of each insert and after it: every level "
+                "sorted, NULL-terminated, complete nodes of sufficient height, sub-list of the level below, level 0 has all old keys")
+        if rd:
+            desc = ("real skiplist.c readers under the atomic-event hook: loads only, every next-pointer load is acquire, every followed pointer and "
+                    "max_height read through the atomic accessors; results equal the reference (" + RD_NAMES[rd] + ")")
+        if mid:
+            desc += "; the REAL ldb_skipiter_seek/next run from the monitor between two stores (symbolically chosen) of the last insert returns the reference answer, with acquire loads"
+        out.append(Obl("%s.skiplist-%s-H%s" % (prefix, what, hs or "none"), "C10/skiplist.c",
                        real=["skiplist.c"], kit=KIT, defs=defs, guard=True,
-                       unwind=max(14, n + 3),
+                       unwind=14,
                        unwindset={"ldb_skiplist_find_ge.0": n + h + 2, "ldb_skiplist_find_lt.0": n + h + 2,
                                   "ldb_skiplist_find_last.0": n + h + 2,
                                   "ldb_skiplist_insert.0": h + 1, "ldb_skiplist_insert.1": h + 1,
                                   "ldb_skiplist_randheight.0": h + 1},
                        flags=["--no-bounds-check", "--slice-formula"], object_bits=11, tier=tier, timeout=300,
-                       functions=["ldb_skiplist_insert", "ldb_skiplist_find_ge", "ldb_skipnode_set", "ldb_skipnode_set_nb",
-                                  "ldb_skipnode_next", "ldb_skipnode_next_nb", "ldb_skiplist_maxheight", "ldb_skipiter_seek",
-                                  "ldb_skipiter_next", "ldb_skipiter_prev", "ldb_skipiter_first", "ldb_skipiter_last",
-                                  "ldb_skiplist_contains", "ldb_skiplist_init"],
-                       desc="real skiplist.c under the atomic-event hook",
-                       bounds="%d inserts" % n))
+                       functions=SKIP_FUNCS + RD_FUNCS[rd] + (RD_FUNCS[1] if mid else []),
+                       desc=desc,
+                       bounds="%d inserts of distinct symbolic 1-byte keys in arbitrary key order, node heights %s (concrete per query)%s" % (
+                           n, ",".join(hs) or "-", "; symbolic reader target" if (rd or mid) else "")))
     return out
 
 
